@@ -165,7 +165,7 @@ def post_factory(tier, seed):
 
 def run(tier, seed):
     return tracecheck.run(PID, tier, seed, {}, oracle, n_quick=300, n_thorough=5000, casegen=casegen, post=post_factory(tier, seed),
-                          require_props=False, level="translation_validation", mask=1 | 2 | 4 | 8, shrink_budget=6)
+                          mask=1 | 2 | 4 | 8, shrink_budget=6)
 
 
 def replay(payload):
